@@ -13,6 +13,7 @@ import itertools
 import math
 
 from .. import pool, rb
+from ..common import nanmax
 
 LEVEL = "model_checking"
 ASAN = True
@@ -215,10 +216,10 @@ class Resolve:
                     sim.update_tree()
                 M1, P1, X1, K1, h1 = self.totals(sim)
                 scaleP = sum(abs(b[0]) * (abs(b[4]) + abs(b[5]) + abs(b[6])) for b in bodies) + 1e-300
-                if abs(M1 - M0) > 1e-13 * M0:
+                if not (abs(M1 - M0) <= 1e-13 * M0):
                     V.append(("resolve:mass:%s" % resolver, "total mass %r -> %r in step %d, processing seed %d [%s]" % (M0, M1, st, seed, tag)))
                     break
-                if max(abs(a - b) for a, b in zip(P1, P0)) > 1e-12 * scaleP:
+                if not (nanmax(abs(a - b) for a, b in zip(P1, P0)) <= 1e-12 * scaleP):
                     V.append(("resolve:momentum:%s" % resolver, "total momentum %s -> %s in step %d, processing seed %d [%s]" % (P0, P1, st, seed, tag)))
                     break
                 if len(set(h1)) != len(h1) or not set(h1) <= set(h0):
@@ -228,7 +229,7 @@ class Resolve:
                     # centre of mass moves ballistically: X(t+dt) = X(t) + P dt
                     want = [tb[2][a] + tb[1][a] * (sim.t - tcur) for a in range(3)]
                     scaleX = sum(abs(b[0]) * (abs(b[1]) + abs(b[2]) + abs(b[3]) + 1) for b in bodies)
-                    if max(abs(a - b) for a, b in zip(X1, want)) > 1e-12 * scaleX:
+                    if not (nanmax(abs(a - b) for a, b in zip(X1, want)) <= 1e-12 * scaleX):
                         V.append(("resolve:com:merge", "mass-weighted position %s, expected %s after step %d, seed %d [%s]" % (X1, want, st, seed, tag)))
                         break
                     if sim.N != len(h1):
@@ -238,7 +239,7 @@ class Resolve:
                     if len(h1) != len(h0):
                         V.append(("resolve:N:hardsphere", "hard-sphere bounce changed the particle count %d -> %d [%s]" % (len(h0), len(h1), tag)))
                         break
-                    if abs(K1 - K0) > 1e-12 * K0:
+                    if not (abs(K1 - K0) <= 1e-12 * K0):
                         V.append(("resolve:energy:hardsphere", "kinetic energy %r -> %r at restitution 1, step %d, seed %d [%s]" % (K0, K1, st, seed, tag)))
                         break
             outcomes.add((len(self.totals(sim)[4]),))
@@ -292,7 +293,7 @@ class Shear:
         P1 = [sum(p.m * getattr(p, a) for p in sim.particles) for a in ("vx", "vy", "vz")]
         V = []
         tag = "shear/%s yoff=%g vyrel=%g t0=%g" % (mode, yoff, vyrel, t0)
-        if max(abs(a - b) for a, b in zip(P0, P1)) > 1e-12 * 30:
+        if not (nanmax(abs(a - b) for a, b in zip(P0, P1)) <= 1e-12 * 30):
             V.append(("resolve:momentum:hardsphere-shear", "total momentum %s -> %s in a bounce against a sheared image [%s]" % (P0, P1, tag)))
         a, b = sim.particles[0], sim.particles[1]
         if a.hash.value != 1:
